@@ -12,7 +12,8 @@ def units(tier):
 
 
 def runner_tasks(tier):
-    return [{"module": "c15", "task": "sample", "kind": "bounded", "clause": "samples x rest lists x targets"}]
+    return [{"module": "c15", "task": "sample", "kind": "bounded", "clause": "samples x rest lists x targets"},
+            {"module": "stateful", "task": "C15", "name": "stateful", "kind": "bounded", "clause": "decay_time on a recalculated Sample; weakly activated samples"}]
 
 
 REPLAY = {"module": "c15", "task": "replay"}
